@@ -11,7 +11,7 @@ RESERVED = ['items', 'keys', 'values', 'get', 'update', 'pop', 'copy', 'setdefau
 RULE = ('abstract alignments (1-6 rows, width 1-70, random GF/GC/GS/GR sets with adversarial ids/keys/values) written by sugar and '
         'read back (StringIO handle and real files); the same alignments rendered by an independent interleaving renderer at every '
         'block width; 1-4 alignments per handle read repeatedly; raw texts with repeated GF/GS tags (adjacent and non-adjacent, merged with other tags and moved between sequence blocks), comments, blank lines, '
-        'shuffled markup and garbage lines; random well-formed and malformed feature lists and rows for fts2row/row2fts and both '
+        'shuffled markup and garbage lines; HISTORIES (several calls in one process on the same objects/texts/rows with in-place edits of baskets, of read results and of returned feature lists in between, other options and colliding inputs; every step compared with the model on the current value); random well-formed and malformed feature lists and rows for fts2row/row2fts and both '
         'compositions; non-trivial = distinct case with annotations of some kind, >1 block, >1 alignment, repeated lines, '
         'shared boundary / open end / offset / long feature')
 TRUSTED = ['CPython str.strip/split(maxsplit)/startswith/find/center/upper, re.split("[.]+"), dict insertion order, sorted() stability, '
@@ -41,13 +41,21 @@ def coq_fts(fts):
 
 
 def model_term(case):
+    if case.get('op') not in OPS and case.get('op') != 'hist':
+        return 'out VNone'                      # (a shrunk, meaningless case)
+    if case['op'] == 'hist':
+        return 'out (hist_join %s)' % coq_list([model_val(st['case']) for st in case['_steps'] if 'case' in st])
+    return 'out (%s)' % model_val(case)
+
+
+def model_val(case):
     op = case['op']
     alns = [case['aln']] if 'aln' in case else case.get('alns', [])
     n = case.get('bw', case.get('n', 0))
     t = case.get('text', case.get('row', ''))
     mf = coq_list(['(%s, %s)' % (coq_bs(name), coq_list(['(%s, %s, %s)' % (coq_nat(a), coq_nat(b), coq_N(d)) for a, b, d in locs]))
                    for name, locs in case.get('mfts', [])])
-    return 'out (run_C15 %s %s %s %s %s %s)' % (coq_N(OPS[op]), coq_list([coq_aln(a) for a in alns]), coq_nat(n), coq_bs(t),
+    return '(run_C15 %s %s %s %s %s %s)' % (coq_N(OPS[op]), coq_list([coq_aln(a) for a in alns]), coq_nat(n), coq_bs(t),
                                                coq_fts(case.get('fts', [])), mf)
 
 
@@ -123,8 +131,135 @@ def mkfts(fts):
     return FeatureList(out)
 
 
+# ----------------------------------------------------------------------------- histories (state-independence stream)
+def apply_edits(a, edits):
+    """abstract alignment after in-place edits (pure; the generator stores the result in the case)"""
+    import copy
+    a = copy.deepcopy({'gf': a['gf'], 'gc': a['gc'], 'rows': a['rows']})
+
+    def setd(d, k, v):
+        for p in d:
+            if p[0] == k:
+                p[1] = v
+                return
+        d.append([k, v])
+    for e in edits:
+        if e[0] == 'gf_set':
+            setd(a['gf'], e[1], e[2])
+        elif e[0] == 'gf_del':
+            a['gf'] = [p for p in a['gf'] if p[0] != e[1]]
+        elif e[0] == 'gc_set':
+            setd(a['gc'], e[1], e[2])
+        elif e[0] == 'gs_set':
+            setd(a['rows'][e[1]][2], e[2], e[3])
+        elif e[0] == 'gr_set':
+            setd(a['rows'][e[1]][3], e[2], e[3])
+        elif e[0] == 'gr_del':
+            a['rows'][e[1]][3] = [p for p in a['rows'][e[1]][3] if p[0] != e[2]]
+        elif e[0] == 'data':
+            a['rows'][e[1]][1] = e[2]
+        elif e[0] == 'id':
+            a['rows'][e[1]][0] = e[2]
+    return a
+
+
+def edit_basket(b, edits):
+    """the same edits, in place, on sugar objects"""
+    from sugar import Attr
+
+    def box(meta, name):
+        return meta.setdefault('_stockholm', Attr()).setdefault(name, Attr())
+    for e in edits:
+        if e[0] == 'gf_set':
+            box(b.meta, 'GF')[e[1]] = e[2]
+        elif e[0] == 'gf_del':
+            del b.meta._stockholm.GF[e[1]]
+        elif e[0] == 'gc_set':
+            box(b.meta, 'GC')[e[1]] = e[2]
+        elif e[0] == 'gs_set':
+            box(b[e[1]].meta, 'GS')[e[2]] = e[3]
+        elif e[0] == 'gr_set':
+            box(b[e[1]].meta, 'GR')[e[2]] = e[3]
+        elif e[0] == 'gr_del':
+            del b[e[1]].meta._stockholm.GR[e[2]]
+        elif e[0] == 'data':
+            b[e[1]].data = e[2]
+        elif e[0] == 'id':
+            b[e[1]].id = e[2]
+
+
+def edit_tuples(fts, ed):
+    out = [[f[0] + ed.get('shift', 0), f[1] + ed.get('shift', 0), f[2], f[3]] for f in fts]
+    if 'rename' in ed:
+        out[ed['rename'][0]][3] = ed['rename'][1]
+    if 'delete' in ed:
+        del out[ed['delete']]
+    return out
+
+
+def run_hist(case):
+    from sugar import read
+    from sugar._io.stockholm import row2fts, fts2row
+    env, outs = {}, []
+    for st in case['_steps']:
+        do = st['do']
+        if do == 'build':
+            env[st['as']] = build(st['aln'])
+            continue
+        if do == 'edit_aln':
+            edit_basket(env[st['on']], st['edits'])
+            continue
+        if do == 'edit_fts':
+            fl, ed = env[st['on']], st['ed']
+            for ft in fl:
+                ft.loc.start += ed.get('shift', 0)
+                ft.loc.stop += ed.get('shift', 0)
+            if 'rename' in ed:
+                fl[ed['rename'][0]].name = ed['rename'][1]
+            if 'delete' in ed:
+                del fl[ed['delete']]
+            continue
+        sub = st['case']
+        try:
+            if do == 'row2fts':
+                kw = {'type_': 'dom', 'seqid': 's1'} if st.get('kw') else {}
+                r = row2fts(sub['row'], **kw)
+                if 'as' in st:
+                    env[st['as']] = r
+                assert all((ft.type, ft.seqid) == (('dom', 's1') if st.get('kw') else (None, None)) for ft in r)
+                obs = [ft_tuple(ft) for ft in r]
+            elif do == 'fts2row':
+                obs = fts2row(env[st['on']] if 'on' in st else mkfts(sub['fts']))
+            elif do == 'write':
+                text = env[st['on']].tofmtstr('stockholm')
+                f = io.StringIO(text)
+                r = read(f, 'stockholm')
+                if 'keep' in st:
+                    env[st['keep']] = r
+                obs = [text, [canon(r), text[f.tell():]]]
+            elif do == 'read':
+                f = io.StringIO(sub['text'])
+                obs = []
+                for i in range(sub['n']):
+                    r = read(f, 'stockholm')
+                    if i == 0 and 'as' in st:
+                        env[st['as']] = r
+                    obs.append([canon(r), sub['text'][f.tell():]])
+            elif do == 'blocks':
+                text = render(sub['aln'], sub['bw'])
+                obs = [text, reads(text, 1)[0]]
+            else:
+                raise RuntimeError(do)
+        except Exception as e:
+            obs = canon_exc(e)
+        outs.append(obs)
+    return outs
+
+
 def impl(case):
     op = case['op']
+    if op == 'hist':
+        return run_hist(case)
     if op == 'rt':
         from sugar import read
         b = build(case['aln'])
@@ -350,6 +485,15 @@ def spec_row_of(fts, row):
 
 def spec(case, got):
     op = case['op']
+    if op == 'hist':
+        if isinstance(got, dict):
+            return 'history raised %s' % got['e']
+        subs = [st for st in case['_steps'] if 'case' in st]
+        for i, (st, obs) in enumerate(zip(subs, got)):
+            why = spec(st['case'], obs)
+            if why:
+                return 'step %d (%s): %s' % (i, st['do'], why)
+        return None
     if op == 'rt' or op == 'blocks':
         if isinstance(got, dict):
             return 'raised %s' % got['e']
@@ -590,6 +734,143 @@ def gen_row(rng):
     return row
 
 
+def py_wf_row(row):
+    """generator-side approximation of wf_rowstr (the model decides; this only steers histories into the domain)"""
+    if not row or row[0] not in '.|' or any(not 33 <= ord(c) <= 126 for c in row):
+        return False
+    i = 0
+    while i < len(row):
+        j = row.find('|', i + 1)
+        j = len(row) if j == -1 else j
+        seg = row[i + 1:j]
+        names = set(re.findall(r'[^.]+', seg))
+        if len(names) > 1 or (names and j == len(row) and len(next(iter(names))) >= len(seg)):
+            return False
+        i = j
+    return True
+
+
+def gen_hist_rows(rng):
+    """row2fts / fts2row called repeatedly; earlier results are shifted, renamed, shortened in between"""
+    while True:
+        row = gen_row(rng)
+        F = spec_row2fts(row)
+        if F and (py_wf_row(row) or rng.random() < 0.1):
+            break
+    kw = rng.random() < 0.3
+    steps = [{'do': 'row2fts', 'case': {'op': 'row2fts', 'row': row}, 'as': 'f1', 'kw': kw}]
+    if rng.random() < 0.6:
+        steps.append({'do': 'fts2row', 'on': 'f1', 'case': {'op': 'fts2row', 'fts': F}})
+    ed = {}
+    if rng.random() < 0.7 and not F[0][2] & 1:               # (a left-open first feature has to stay in column 0)
+        ed['shift'] = rng.choice([1, 2, 10, 100])
+    if rng.random() < 0.6:
+        j = rng.randrange(len(F))
+        ed['rename'] = [j, gen_word(rng, NAMECH, 1, min(2, len(F[j][3])))]
+    if len(F) > 1 and rng.random() < 0.5:
+        ed['delete'] = rng.randrange(1, len(F) - 1) if len(F) > 2 else 1 if not F[1][2] & 2 else 0
+        if ed['delete'] == len(F) - 1 and F[-1][2] & 2 and False:
+            del ed['delete']
+    if not ed:
+        ed['rename'] = [0, 'q']
+    steps.append({'do': 'edit_fts', 'on': 'f1', 'ed': ed})
+    F1 = edit_tuples(F, ed)
+    if rng.random() < 0.7:
+        other = gen_row(rng)
+        while not py_wf_row(other):
+            other = gen_row(rng)
+        steps.append({'do': 'row2fts', 'case': {'op': 'row2fts', 'row': other}, 'kw': rng.random() < 0.3})
+    steps.append({'do': 'row2fts', 'case': {'op': 'row2fts', 'row': row}, 'as': 'f2', 'kw': kw})       # same row again
+    tail = [{'do': 'fts2row', 'on': 'f1', 'case': {'op': 'fts2row', 'fts': F1}},                          # the edited value
+            {'do': 'fts2row', 'on': 'f2', 'case': {'op': 'fts2row', 'fts': F}},
+            {'do': 'row2fts', 'case': {'op': 'row2fts', 'row': row}, 'kw': not kw},                        # other options
+            {'do': 'fts2row', 'case': {'op': 'fts2row', 'fts': F1}},                                       # fresh objects
+            {'do': 'fts2row', 'on': 'f2', 'case': {'op': 'fts2row', 'fts': F}}]                            # same call twice
+    rng.shuffle(tail)
+    steps += tail[:rng.randint(2, 5)]
+    if rng.random() < 0.5:
+        ed2 = {'rename': [0, gen_word(rng, NAMECH, 1, 1)]}
+        if not F[0][2] & 1:
+            ed2['shift'] = rng.choice([1, 5])
+        steps.append({'do': 'edit_fts', 'on': 'f2', 'ed': ed2})
+        steps.append({'do': 'row2fts', 'case': {'op': 'row2fts', 'row': row}, 'kw': kw})
+        steps.append({'do': 'fts2row', 'on': 'f2', 'case': {'op': 'fts2row', 'fts': edit_tuples(F, ed2)}})
+    return {'op': 'hist', '_kind': 'rows', '_steps': steps}
+
+
+def gen_edits(rng, a):
+    w = len(a['rows'][0][1])
+    colalpha = '<>.()[]xyz0123'
+    edits = []
+    for _ in range(rng.randint(1, 4)):
+        i = rng.randrange(len(a['rows']))
+        cur = apply_edits(a, edits)
+        k = rng.randrange(8)
+        if k == 0:
+            key = rng.choice([p[0] for p in cur['gf']]) if cur['gf'] and rng.random() < 0.6 else gen_key(rng)
+            edits.append(['gf_set', key, gen_val(rng)])
+        elif k == 1 and cur['gf']:
+            edits.append(['gf_del', rng.choice(cur['gf'])[0]])
+        elif k == 2:
+            key = rng.choice([p[0] for p in cur['gc']]) if cur['gc'] and rng.random() < 0.6 else gen_key(rng)
+            edits.append(['gc_set', key, gen_word(rng, colalpha, w, w)])
+        elif k == 3:
+            gs = cur['rows'][i][2]
+            key = rng.choice([p[0] for p in gs]) if gs and rng.random() < 0.6 else gen_key(rng)
+            edits.append(['gs_set', i, key, gen_val(rng)])
+        elif k == 4:
+            gr = cur['rows'][i][3]
+            key = rng.choice([p[0] for p in gr]) if gr and rng.random() < 0.6 else gen_key(rng)
+            edits.append(['gr_set', i, key, gen_word(rng, colalpha, w, w)])
+        elif k == 5 and cur['rows'][i][3]:
+            edits.append(['gr_del', i, rng.choice(cur['rows'][i][3])[0]])
+        elif k == 6:
+            edits.append(['data', i, gen_word(rng, 'ACGU-', w, w)])
+        else:
+            nid = gen_id(rng)
+            if nid not in [r[0] for r in cur['rows']]:
+                edits.append(['id', i, nid])
+    return edits or [['gf_set', 'ID', 'edited']]
+
+
+def read_case(a, bw, n=1):
+    text = render(a, bw)
+    return {'op': 'read', 'text': text, 'n': n, 'expect': ([canon_aln(a)] + [EMPTY] * n)[:n], 'crc': zlib.crc32(text.encode('latin-1'))}
+
+
+def gen_hist_stk(rng):
+    """write / read called repeatedly on the same objects and texts, with in-place edits of baskets and of read results"""
+    a = gen_aln(rng, maxrows=3, maxw=12, small=rng.random() < 0.4)
+    w = len(a['rows'][0][1])
+    e1 = gen_edits(rng, a)
+    a1 = apply_edits(a, e1)
+    rt = lambda x: {'op': 'rt', 'aln': x, 'via': 'str'}
+    steps = [{'do': 'build', 'aln': a, 'as': 'b'},
+             {'do': 'write', 'on': 'b', 'case': rt(a), 'keep': 'r'}]
+    if rng.random() < 0.5:
+        steps.append({'do': 'write', 'on': 'b', 'case': rt(a)})                       # same call twice
+    steps += [{'do': 'edit_aln', 'on': 'b', 'edits': e1},
+              {'do': 'write', 'on': 'b', 'case': rt(a1)}]                              # the edited value
+    if rng.random() < 0.7:                                                             # the earlier read result is its own object
+        e2 = gen_edits(rng, a)
+        steps += [{'do': 'edit_aln', 'on': 'r', 'edits': e2},
+                  {'do': 'write', 'on': 'r', 'case': rt(apply_edits(a, e2))},
+                  {'do': 'write', 'on': 'b', 'case': rt(a1)}]
+    bw = rng.randint(1, w)
+    steps.append({'do': 'read', 'case': read_case(a, bw), 'as': 'r2'})
+    e3 = gen_edits(rng, a)
+    steps += [{'do': 'edit_aln', 'on': 'r2', 'edits': e3},
+              {'do': 'read', 'case': read_case(a, bw, 2)},                            # same text again, more reads
+              {'do': 'read', 'case': read_case(a, rng.randint(1, w))},                # other block width
+              {'do': 'read', 'case': read_case(a1, bw)},                              # same ids and width, other content
+              {'do': 'blocks', 'case': {'op': 'blocks', 'aln': a1, 'bw': rng.randint(1, w)}},
+              {'do': 'write', 'on': 'r2', 'case': rt(apply_edits(a, e3))},
+              {'do': 'read', 'case': read_case(a, bw)}]
+    fixed, tail = steps[:-7], steps[-7:]
+    keep = [tail[0]] + [t for t in tail[1:] if rng.random() < 0.7]
+    return {'op': 'hist', '_kind': 'stk', '_steps': fixed + keep}
+
+
 def gen_cases(rng, tier):
     T = tier == 'thorough'
     cases = []
@@ -673,6 +954,11 @@ def gen_cases(rng, tier):
                     locs.reverse()
             mf.append([name, locs])
         cases.append({'op': 'multiloc', 'mfts': mf})
+    # --- histories: several calls in one process, results mutated in between (state-independence stream)
+    for i in range(1500 if T else 170):
+        cases.append(gen_hist_rows(rng))
+    for i in range(1000 if T else 130):
+        cases.append(gen_hist_stk(rng))
     # --- feature rows
     for i in range(3000 if T else 250):
         fts = gen_wf_fts(rng, big=(i % 12 == 0))
@@ -692,6 +978,8 @@ def gen_cases(rng, tier):
 # ----------------------------------------------------------------------------- evidence helpers
 def nontrivial(case, got):
     op = case['op']
+    if op == 'hist':
+        return 'hist:' + case.get('_kind', '')
     if op in ('rt', 'blocks'):
         a = case['aln']
         kinds = ''.join(k for k, p in (('F', a['gf']), ('C', a['gc']), ('S', any(r[2] for r in a['rows'])),
@@ -728,6 +1016,8 @@ def nontrivial(case, got):
 def histkey(case, got):
     op = case['op']
     ks = ['op=' + op]
+    if op == 'hist':
+        return ks + ['hist=' + case.get('_kind', ''), 'steps=%d' % len(case['_steps'])]
     if isinstance(got, dict):
         ks.append('raises=' + got['e'])
     if op in ('rt', 'blocks'):
@@ -759,6 +1049,10 @@ def features(case, got):
 
 def python_snippet(case):
     op = case['op']
+    if op == 'hist':
+        return ('import json, sys; sys.path.insert(0, "/verif/tools"); from props import c15\n'
+                '# one process, steps in order; each compared step must equal the single call on the current value\n'
+                'for o in c15.impl(json.loads(%r)): print(o)' % __import__('json').dumps(case))
     if op in ('rt', 'multi'):
         return ('import io, json, sys; sys.path.insert(0, "/verif/tools"); from props import c15; from sugar import read\n'
                 'case = json.loads(%r)\nprint(c15.impl(case))' % __import__('json').dumps(case))
@@ -792,7 +1086,7 @@ LEVEL_TEXT = ('Machine-checked Coq theorems over a line-by-line Gallina model of
 LEVEL_NOTE = ('All 20 theorems closed under the global context (no axioms). Proved for all inputs: stk_roundtrip, stk_stop, stk_multi, '
               'stk_interleave(+_stop), stk_columns_anywhere, stk_gf_join, stk_gs_join, gf_all_frags, gs_all_frags, read_text_gf_join, '
               'read_text_gs_join, lines_items, row_fts_inverse, row_fts_row, row_canonical; the two bounded-box theorems '
-              '(row_fts_row_box, fts_row_fts_box, box_sizes) are kept as regression. Tested only (correspondence): that the Gallina model '
+              '(row_fts_row_box, fts_row_fts_box, box_sizes) are kept as regression. Tested only (correspondence): state independence of the calls (history stream: 300 histories in quick; the pure model is the expectation of every step); that the Gallina model '
               'is sugar (every case, both tiers); writer behaviour for absent/empty _stockholm containers; comments=[] collection; features '
               'with several locations (fts2row uses the location range and the outer defects; outside the domain); error classes on malformed '
               'rows/feature lists. fts2row(row2fts(row)) = row on arbitrary rows is NOT claimed (false by design: names are re-centred and '
